@@ -150,12 +150,42 @@ def kernel_bmc(S, rep, tier, seed, prop='C01'):
         ('no-panic-in-sequential-code', z3.Or(*[enc.at_term(t, SK, 'panic') for t in enc.threads]), [nf]),
         ('witness/all-writers-finish-after-writing', z3.And(alldone, *[z3.UGT(SK['wops:' + nme], 0) for nme in names]), [nf]),
     ]
-    res = bmc.solve_many(enc, qs, timeout_ms=300000, seed=seed, jobs=4)
+    res = bmc.solve_many(enc, qs, timeout_ms=300000, seed=seed, jobs=4, extract=lambda e, m: e.replay_info(m))
     rep.states += sum(len(t.locs) for t in enc.threads)
     rep.transitions += len(enc.cmds)
     rep.bounds['kernel'] = {'writers': n, 'ops_per_writer': '<=%d of write/flush, then drop' % nops, 'K_steps': K, 'commands': len(enc.cmds),
                             'lock_protected_objects': enc.protected}
-    report_results(rep, prop, 'kernel', res, {}, ['sequential-writers', n, K])
+    report_results(rep, prop, 'kernel', res, {}, ['sequential-writers', n, K], replayer=lambda v, info: replay_writers(S.L, v, rep, info, names))
+
+
+def replay_writers(L, v, rep, info, names):
+    """the counterexample schedule on the real sequential.rs under the controlled runtime: same sink order, same drops, same
+    parked writers"""
+    from mirsym import replay_sched
+    ops = info['ops']
+    threads = []
+    for nme in names:
+        words = []
+        for (t, o, p) in ops:
+            if t != nme:
+                continue
+            if o == 'sink_write':
+                words.append('write')
+            elif o == 'sink_flush':
+                words.append('flush')
+            elif o == 'observe' and p.get('what') == 'writer_dropped':
+                words.append('drop')
+        mine = [(o, p) for (t, o, p) in ops if t == nme]
+        if mine and 'drop' not in words and mine[-1][0] not in ('sink_write', 'sink_flush', 'unlock'):
+            words.append('write')      # parked (or stopped) inside an operation whose kind the schedule does not show
+        threads.append((nme, ' ; '.join(words) if words else 'sleep 1'))
+    pred = {'sink': [(t, 'write' if o == 'sink_write' else 'flush') for (t, o, p) in ops if o in ('sink_write', 'sink_flush')],
+            'parked': []}
+    v.scenario['threads'] = threads
+    v.scenario['ops'] = ops
+    res = replay_sched.confirm(L, v, 'writers', threads, info, {'sink': pred['sink']}, extra={'n': len(names)})
+    if v.reproduced is not None:
+        rep.replays += 1
 
 
 ACTIONS = ['respond', 'into_writer-2-writes', 'into_writer-write-flush-write', 'drop']
